@@ -23,8 +23,34 @@ EXACT = {
 MACROS = ("unreachable", "todo", "unimplemented", "assert_eq", "assert_ne", "debug_assert", "assert", "panic")
 
 
+# further library entry points that panic on a bad argument (index out of range, not a char boundary, zero step / divisor, radix out of range,
+# capacity overflow); rustc reports the inherent methods of str / slices / integers under `core::`, collections under `alloc::` or `std::`
+MORE = {
+    "<impl [T]>::split_at": "slice::split_at", "<impl [T]>::split_at_mut": "slice::split_at", "<impl [T]>::swap": "slice::swap",
+    "<impl [T]>::chunks": "slice::chunks", "<impl [T]>::chunks_exact": "slice::chunks", "<impl [T]>::windows": "slice::windows",
+    "<impl [T]>::copy_from_slice": "slice::copy_from_slice", "<impl [T]>::clone_from_slice": "slice::copy_from_slice",
+    "<impl [T]>::rotate_left": "slice::rotate", "<impl [T]>::rotate_right": "slice::rotate", "<impl [T]>::select_nth_unstable": "slice::select_nth",
+    "<impl str>::split_at": "str::split_at", "<impl str>::split_at_mut": "str::split_at", "<impl str>::repeat": "str::repeat",
+    "String::truncate": "String::truncate", "String::split_off": "String::split_off", "String::replace_range": "String::replace_range",
+    "String::insert_str": "String::insert", "Vec::<T, A>::swap_remove": "Vec::swap_remove", "Vec::<T, A>::splice": "Vec::splice",
+    "Vec::<T, A>::extend_from_within": "Vec::extend_from_within", "VecDeque::<T, A>::swap": "VecDeque::swap", "VecDeque::<T, A>::insert": "VecDeque::insert",
+    "Iterator::step_by": "Iterator::step_by", "from_str_radix": "from_str_radix", "char::methods::<impl char>::from_digit": "char::from_digit",
+    "char::methods::<impl char>::to_digit": "char::to_digit", "div_ceil": "int::div_ceil", "div_euclid": "int::div_euclid", "rem_euclid": "int::rem_euclid",
+    "next_multiple_of": "int::next_multiple_of", "ilog": "int::ilog", "ilog2": "int::ilog", "ilog10": "int::ilog",
+    "Duration::from_secs_f64": "Duration::from_float", "Rc::<T>::try_unwrap": "Rc::try_unwrap",
+}
+
+
 def callee_class(r):
     d = r["def"]
+    if d.startswith(("core::", "alloc::")):
+        d2 = "std::" + d.split("::", 1)[1]
+        if d2 in EXACT:
+            d = d2
+    if d.startswith(("core::", "alloc::", "std::")) and d not in EXACT:
+        for suffix, cls in MORE.items():
+            if d.endswith("::" + suffix) or d.endswith(suffix) and ("::" + suffix) in ("::" + d):
+                return cls
     if d in EXACT:
         c = EXACT[d]
         if c in ("panic", "assert"):
@@ -108,7 +134,7 @@ def collect(cg, syn):
                         if ik == "range" and "s" not in c[0]["i"] and "e" not in c[0]["i"] and len(c) == 1 and cc in ("str[]", "Vec[]", "Index[]"):
                             continue        # `x[..]` (RangeFull) is total: the whole string / slice, no bounds to violate
                         step = last_step(c[0]["e"]) + "[" + ("lit" if ik == "lit" else "range" if ik == "range" else "expr") + "]"
-                elif "::" in cc and cc.split("::")[0] in ("Vec", "String", "VecDeque", "RefCell", "str", "slice"):
+                elif "::" in cc and cc.split("::")[0] in ("Vec", "String", "VecDeque", "RefCell", "str", "slice", "int", "Iterator", "char"):
                     nm = cc.split("::")[1]
                     c = [n for n in walk(sf["body"]) if n.get("k") == "mcall" and n["m"] == nm and n["l"] == line]
                     if c:
